@@ -119,14 +119,20 @@ theorem LenInv.viewLen_eq {s : State} (hl : LenInv s) {i : Nat} {h : HV} (hs : l
   exact ⟨k, hk, viewLen_of_ok hk ho, viewLen_of_ok hk' hoa.1⟩
 
 /-- [C10] for every ThinArc (or raw thin pointer) obtainable through the op language, after any
-history, the length stored in the block equals the real slice length, and its view type is the
-`HeaderWithLength` one -/
+history, the length stored in the block equals the real slice length -/
 theorem thin_len_correct (ops : List Op) (i : Nat) (h : HV) (hs : lookup (run ops) i = some h)
     (hk : h.kind = .thin ∨ h.kind = .rawThin) :
-    ∃ k : Block, (run ops).mem.blocks[h.blk]? = some k ∧ k.recLen = some k.elems.length ∧ h.ty = .hwl := by
+    ∃ k : Block, (run ops).mem.blocks[h.blk]? = some k ∧ k.recLen = some k.elems.length := by
   obtain ⟨k, hkb, ho⟩ := (leninv_run ops).ok i h (lookup_mem hs)
   have ht : h.kind.isThin = true := by rcases hk with hk | hk <;> rw [hk] <;> rfl
-  exact ⟨k, hkb, (ho.thin ht).2, (ho.thin ht).1⟩
+  exact ⟨k, hkb, (ho.thin ht).2⟩
+
+/-- … and its view type is the `HeaderWithLength` one -/
+theorem thin_ty_hwl (ops : List Op) (i : Nat) (h : HV) (hs : lookup (run ops) i = some h)
+    (hk : h.kind = .thin ∨ h.kind = .rawThin) : h.ty = .hwl := by
+  obtain ⟨k, _, ho⟩ := (leninv_run ops).ok i h (lookup_mem hs)
+  have ht : h.kind.isThin = true := by rcases hk with hk | hk <;> rw [hk] <;> rfl
+  exact (ho.thin ht).1
 
 /-- every fat handle with a slice-like view carries the real slice length -/
 theorem fat_len_correct (ops : List Op) (i : Nat) (h : HV) (hs : lookup (run ops) i = some h)
@@ -163,7 +169,8 @@ theorem dealloc_layout_eq_alloc_layout (ops : List Op) (b sz al sz' al' : Nat)
 /-! ## non-vacuity -/
 
 /-- a ThinArc built from a vec, cloned inside `with_arc_mut`, round-tripped through a raw pointer,
-a `[T]` built uninitialised, written, `assume_init`ed and header-(un)erased; then everything dropped -/
+a `[T]` built uninitialised, written, `assume_init`ed and given its unit header back; a second
+`into_thin` refused (stored length 9 ≠ 1: the block is destroyed on the spot) -/
 def exampleLenHistory : List Op :=
   [.create 0 (.hwlFromVec ⟨1, 1⟩ 3 [⟨2, 2⟩, ⟨3, 3⟩, ⟨4, 4⟩]), .intoThin 0,
    .withCb 0 .thinWithArcMut [.cloneTo 1], .conv 1 .thinIntoRaw,
@@ -174,10 +181,10 @@ def exampleLenHistory : List Op :=
 example : (lookup (run exampleLenHistory) 1).map (·.kind) = some .rawThin ∧
     (lookup (run exampleLenHistory) 2).map (·.ty) = some .uslice ∧
     lookup (run exampleLenHistory) 3 = none ∧
-    (run exampleLenHistory).mem.log.length = 11 := by decide
+    (run exampleLenHistory).mem.log.length = 6 := by decide
 
 example : (run (exampleLenHistory ++ [.dropAll])).mem.log.filter (fun e => !e.quiet) =
-    [.alloc 0 56 8, .alloc 1 24 8, .alloc 2 40 8, .dealloc 2 40 8, .dealloc 0 56 8, .dealloc 1 24 8] := by
+    [.alloc 0 48 8, .alloc 1 24 8, .alloc 2 32 8, .dealloc 2 32 8, .dealloc 0 48 8, .dealloc 1 24 8] := by
   decide
 
 end M1
